@@ -32,4 +32,40 @@ theorem gen_root_eq_spec (sha256 : Bytes → Bytes) (T : Tables) (hT : C02.Table
   obtain ⟨st, h1, h2⟩ := C08.root_eq_spec sha256 T hT t h
   exact ⟨st, by rw [gen_merkle_root sha256 T t hs]; exact h2, h2⟩
 
+/-! ## the merkle path and the control block -/
+
+/-- `traverse_level`, the nested function of `_generate_merkle_path`: its `nonlocal` leaf counter is threaded through (extra
+parameter, extra result component); translated with a depth bound that is never exhausted -/
+theorem gen_traverse (sha256 : Bytes → Bytes) (T : Tables) (target : Nat) (t : Model.Tree) (hs : SmallTree T t) (tr : Nat) :
+    Gen.traverse_level sha256 T.opCodes (target : Int) (some (toPyTree t)) (tr : Int) = (traverse sha256 T target t tr).map castR :=
+  GenTapSign.gen_traverse sha256 T target t hs tr
+
+theorem gen_merkle_path (sha256 : Bytes → Bytes) (T : Tables) (t : Model.Tree) (hs : SmallTree T t) (target : Nat) :
+    Gen.generate_merkle_path sha256 T.opCodes (some (toPyTree t)) (target : Int) = merklePath sha256 T t target :=
+  GenTapSign.gen_merkle_path sha256 T t hs target
+
+theorem gen_control_block (sha256 : Bytes → Bytes) (T : Tables) (pub : Bytes) (t : Model.Tree) (hs : SmallTree T t) (index : Nat)
+    (isOdd : Bool) :
+    (Gen.generate_merkle_path sha256 T.opCodes (some (toPyTree t)) (index : Int) >>= fun path =>
+      Gen.control_block_to_bytes isOdd (pub.take 32) path) = controlBlock sha256 T pub t index isOdd :=
+  GenTapSign.gen_control_block sha256 T pub t hs index isOdd
+
+/-- **the control block verifies, end to end**: the control block assembled by the translated `_generate_merkle_path` and
+`ControlBlock.to_bytes` for leaf `k` makes the BIP341 script-path verifier recompute exactly the program and parity of the address -/
+theorem gen_control_block_verifies (sha256 : Bytes → Bytes) (hlen : ∀ b, (sha256 b).length = 32)
+    (T : Tables) (hT : C02.TablesOK T = true) (pub : Bytes) (x y : Nat) (hx : x < 2 ^ 256) (hy : y < 2 ^ 256)
+    (hpub : pub = beBytes 32 x ++ beBytes 32 y)
+    (hl : liftX x = some (x, if y % 2 = 0 then y else p - y))
+    (t : Tree) (h : C08.WFTree T t) (hsm : SmallTree T t) (hd : C08.depth t ≤ 128) (k : Nat) (hk : k < (C08.leavesOf t).length)
+    (q : Bytes) (odd : Bool) (root : Bytes) (hroot : merkleRoot sha256 T t = .ok root)
+    (ht : ofBE (taggedHash sha256 "TapTweak" (beBytes 32 x ++ root)) < n)
+    (hq : toTaproot sha256 T pub (.tree t) = .ok (q, odd)) :
+    ∃ cb leafBytes,
+      (Gen.generate_merkle_path sha256 T.opCodes (some (toPyTree t)) (k : Int) >>= fun path =>
+        Gen.control_block_to_bytes odd (pub.take 32) path) = .ok cb ∧
+      scriptBytes T ((C08.leavesOf t).getD k []) = .ok leafBytes ∧
+      scriptPathCommitment sha256 cb leafBytes = some (q, odd) := by
+  obtain ⟨cb, lb, h1, h2, h3⟩ := C08.control_block_verifies sha256 hlen T hT pub x y hx hy hpub hl t h hd k hk q odd root hroot ht hq
+  exact ⟨cb, lb, by rw [gen_control_block sha256 T pub t hsm k odd]; exact h1, h2, h3⟩
+
 end C08GenTree
